@@ -55,6 +55,11 @@ type RootSpec struct {
 	Sets  [][]*ExprSpec `json:"sets"`
 	VKind string        `json:"vkind,omitempty"`
 	VN    int           `json:"vn,omitempty"`
+	// Ghost: the root object exists from the start and other roots may name it in
+	// DependsOn, but nobody registers it before RunDSL (a "register" action naming
+	// it registers that same object later). Ghosts are a stimulus: the oracle owes
+	// them nothing unless they end up registered.
+	Ghost bool `json:"ghost,omitempty"`
 }
 
 // Case is the fully expanded workload of one RunDSL call.
@@ -252,7 +257,16 @@ func (n *tNode) runDSL() {
 					w.notes = append(w.notes, "dependency "+d+" of "+a.Root.Name+" not registered yet")
 				}
 			}
-			nr := w.buildRoot(a.Root, true)
+			var nr *tRoot
+			if a.Root.Ghost {
+				if nr = w.roots[a.Root.Name]; nr == nil {
+					w.notes = append(w.notes, "ghost "+a.Root.Name+" does not exist")
+					continue
+				}
+				nr.dynamic = true
+			} else {
+				nr = w.buildRoot(a.Root, true)
+			}
 			if err := eval.Register(nr); err != nil {
 				w.notes = append(w.notes, "Register("+a.Root.Name+"): "+err.Error())
 				delete(w.roots, a.Root.Name)
@@ -434,6 +448,9 @@ func runCase(c *Case) *obs {
 	}
 	o := &obs{}
 	for _, rs := range c.Roots {
+		if rs.Ghost {
+			continue
+		}
 		r := w.roots[rs.Name]
 		if err := eval.Register(r); err != nil {
 			o.Notes = append(o.Notes, "initial Register("+rs.Name+"): "+err.Error())
